@@ -529,6 +529,9 @@ func c15RecWorker(arg json.RawMessage) (any, error) {
 	}
 	item, ok := c15Recursive[name]
 	if !ok {
+		item, ok = c15RecursiveAnon[name]
+	}
+	if !ok {
 		return nil, fmt.Errorf("unknown recursive type %q", name)
 	}
 	s, err := avro.SchemaForType(item)
@@ -647,6 +650,20 @@ func runC15(r *Run) {
 			if !strings.Contains(res.Msg, "recursive") {
 				r.Notes = append(r.Notes, "recursive type "+n+" refused with: "+res.Msg)
 			}
+		}
+	}
+
+	// the same for cycles that run through a defined slice / map type and anonymous structs
+	for _, n := range []string{"AnonDir", "AnonForest", "AnonPtr", "AnonTree"} {
+		desc := map[string]any{"source": "recursive", "name": n, "type": fmt.Sprintf("%T", c15RecursiveAnon[n])}
+		var res c15RecRes
+		outcome, msg := isolated("c15rec", n, &res, 20*time.Second)
+		r.Count("src/recursive-anonymous")
+		switch {
+		case outcome != "ok":
+			r.Fail(-1, "recursive-type:"+outcome, "SchemaForType on a type that contains itself through a defined collection type and an anonymous struct does not return: "+msg, desc)
+		case res.Class == "ok":
+			r.Fail(-1, "recursive-type:accepted", "SchemaForType returns a schema for a recursive type: "+res.Msg, desc)
 		}
 	}
 
@@ -2020,6 +2037,12 @@ func c20UnionHistoryCheck() string {
 		}
 		if got := field(s3, "p"); got != want2 {
 			return fmt.Sprintf("an omitempty pointer to a type registered with %s gets %s", want2, got)
+		}
+		if got, want := field(s3, "l"), `{"type":"array","items":`+want2+`}`; got != want {
+			return fmt.Sprintf("a slice of a string-kind type registered with %s gets %s", want2, got)
+		}
+		if got, want := field(s3, "m"), `{"type":"map","values":`+want3+`}`; got != want {
+			return fmt.Sprintf("a map of an integer-kind type registered with %s gets %s", want3, got)
 		}
 		again, err := avro.SchemaForType(plain{})
 		if err != nil {
